@@ -6,7 +6,7 @@ including ties is explored and the resulting intervals are checked against the c
 exact k-1 overlap, lengths in [k, 2k-p], minimizer = the p-mer at the reported position, inside every k-mer of the
 interval, minimal there, and no interval ends early); every narrowing `as` cast in scan is dominated by an assertion
 bounding it; scores are never truncated before comparison."""
-from .. import dt_msp, structural
+from .. import dt_msp, structural, lemmas
 from . import common
 
 ASSUMPTIONS = ["window sizes are bounded (len <= 6 quick, <= 8 thorough); the loop body is uniform in the position, the general case rests on that uniformity",
@@ -14,6 +14,8 @@ ASSUMPTIONS = ["window sizes are bounded (len <= 6 quick, <= 8 thorough); the lo
 
 
 def run(F, rep):
+    # crate helpers generic over the k-mer type: identified with a trait operation per type (and used as such by the tables below)
+    rep.run(lemmas.kmer_helper_lemmas, F, rep, "C07.8")
     rep.engines.update(["E2-DT", "affine", "E1"])
     rep.run(dt_msp.minpos_order_tables, F, rep, "C07.1")
     rep.run(dt_msp.scan_tables, F, rep, "C07.2")
